@@ -22,6 +22,7 @@ type Reporter struct {
 	shardI   int
 	shardN   int
 	only     string
+	done     map[string]bool // VERIF_RESUME: cases that already have a result from an earlier attempt of this shard
 	caseIdx  int
 	counters map[string]int64
 	maxes    map[string]int64
@@ -56,6 +57,30 @@ func Open() *Reporter {
 		}
 	}
 	r.only = os.Getenv("VERIF_ONLY")
+	// VERIF_RESUME lists JSONL files of earlier attempts of this shard that ended in a failure of the
+	// tooling itself (the sanitizer runtime aborting on one of its own internal checks): cases that
+	// already have a result are not run again, the case that was in flight is.
+	for _, p := range strings.Split(os.Getenv("VERIF_RESUME"), ":") {
+		if p == "" {
+			continue
+		}
+		b, err := os.ReadFile(p)
+		if err != nil {
+			continue
+		}
+		for _, ln := range strings.Split(string(b), "\n") {
+			var e struct {
+				Ev string `json:"ev"`
+				ID string `json:"id"`
+			}
+			if json.Unmarshal([]byte(ln), &e) == nil && e.Ev == "result" {
+				if r.done == nil {
+					r.done = map[string]bool{}
+				}
+				r.done[e.ID] = true
+			}
+		}
+	}
 	if p := os.Getenv("VERIF_OUT"); p != "" {
 		f, err := os.OpenFile(p, os.O_CREATE|os.O_WRONLY|os.O_APPEND, 0644)
 		if err != nil {
@@ -90,7 +115,7 @@ func (r *Reporter) Mine(id string) bool {
 	if r.only != "" {
 		return id == r.only
 	}
-	return idx%r.shardN == r.shardI
+	return idx%r.shardN == r.shardI && !r.done[id]
 }
 
 // Rand returns a PRNG determined by the run seed and the given labels only.
@@ -118,6 +143,13 @@ func (r *Reporter) emit(v any) {
 // Case logs that a case is about to run (before any code under test is invoked).
 func (r *Reporter) Case(id string, params any) {
 	setCurrent(r, id)
+	r.flushCov() // what earlier cases observed survives even if this one takes the process down
+	if id == os.Getenv("VERIF_SELFTEST_TOOLCRASH") && os.Getenv("VERIF_RESUME") == "" {
+		// self-test of the driver's resume logic: die the way the sanitizer runtime does
+		r.emit(map[string]any{"ev": "case", "id": id, "params": params})
+		fmt.Fprintln(os.Stderr, "ThreadSanitizer: CHECK failed: selftest (simulated)")
+		os.Exit(66)
+	}
 	r.emit(map[string]any{"ev": "case", "id": id, "params": params})
 }
 
@@ -186,7 +218,18 @@ func (r *Reporter) Close() {
 		r.emit(map[string]any{"ev": "panic", "detail": fmt.Sprint(p)})
 		panic(p)
 	}
+	r.flushCov()
+	r.emit(map[string]any{"ev": "done"})
+}
+
+// flushCov writes the coverage observed since the last flush (the driver adds counters up, takes
+// the maximum of maxima and the union of the distinct sets) and starts afresh.
+func (r *Reporter) flushCov() {
 	r.mu.Lock()
+	if len(r.counters) == 0 && len(r.maxes) == 0 && len(r.distinct) == 0 && len(r.samples) == 0 {
+		r.mu.Unlock()
+		return
+	}
 	d := map[string][]string{}
 	for n, m := range r.distinct {
 		l := make([]string, 0, len(m))
@@ -196,9 +239,10 @@ func (r *Reporter) Close() {
 		d[n] = l
 	}
 	cov := map[string]any{"ev": "cov", "counters": r.counters, "max": r.maxes, "distinct": d, "samples": r.samples}
+	r.maxSamp -= len(r.samples)
+	r.counters, r.maxes, r.distinct, r.samples = map[string]int64{}, map[string]int64{}, map[string]map[string]struct{}{}, nil
 	r.mu.Unlock()
 	r.emit(cov)
-	r.emit(map[string]any{"ev": "done"})
 }
 
 // Hash64 is a convenience for building signatures.
